@@ -165,9 +165,10 @@ def run(scn, kind, loop, reuse=False):
 
 
 if __name__ == '__main__':
+    from _guard import guarded
     loop = asyncio.new_event_loop()
     out = []
     for i, s in enumerate(json.load(open(sys.argv[1]))):
         h = zlib.crc32(json.dumps(s, sort_keys=True).encode())        # variants by content, not by position
-        out.append(run(s, 'async' if h % 2 else 'sync', loop, reuse=(h // 2) % 2 == 1))
+        out.append(guarded(run)(s, 'async' if h % 2 else 'sync', loop, reuse=(h // 2) % 2 == 1))
     json.dump(out, open(sys.argv[2], 'w'))
